@@ -125,11 +125,14 @@ def run_interp(case):
                 "nontrivial": False}
 
     # (3) Gamma acoustic slots
-    for name, a in (("omega", w), ("gamma", g), ("vdgamma", h)):
+    bad_ac = []
+    for name, a in (("omega", w), ("gamma", g), ("V dgamma/dV", h)):
         ac = a[:, 0, :3]
         if not numpy.array_equal(ac, numpy.zeros_like(ac)):
-            viol.append(V(f"c11:{method}:gamma-acoustic-nonzero:{name}",
-                          f"{name}[:, 0, :3] is not exactly zero (first offending value {ac[~(ac == 0)].ravel()[:1]})"))
+            bad_ac.append(f"{name} (first offending value {ac[~(ac == 0)].ravel()[:1].tolist()})")
+    if bad_ac:
+        viol.append(V(f"c11:{method}:gamma-acoustic-nonzero",
+                      "the three Gamma acoustic slots [:, 0, :3] are not exactly zero in: " + "; ".join(bad_ac)))
 
     inside = (v >= min(vols)) & (v <= max(vols))
     exact = exact_expected(case)
@@ -142,7 +145,7 @@ def run_interp(case):
             seen.add(sig)
             viol.append(V(sig, msg))
 
-    worst = {"w": 0.0, "g": 0.0, "h": 0.0, "r1": 0.0, "r2": 0.0}
+    worst = {"w": 0.0, "g": 0.0, "h": 0.0, "r1": 0.0, "r2": 0.0, "mix": 0.0}
     checked = 0
     for (q, m) in slots:
         ws, gs, hs = w[:, q, m], g[:, q, m], h[:, q, m]
@@ -202,7 +205,8 @@ def run_interp(case):
                 others = {s2: float(numpy.abs(numpy.log(ws[sel]) - numpy.log(analytic[s2][0][sel])).max())
                           for s2 in slots if s2 != (q, m)}
                 s2 = min(others, key=others.get)
-                if not own < 0.5 * others[s2]:
+                worst["mix"] = max(worst["mix"], own / others[s2])
+                if not own < others[s2]:        # nearest-law classification; measured own/other <= 0.39 on a correct tree
                     add(f"c11:{method}:slot-mixing",
                         f"slot (q={q}, m={m}): max |ln w - ln w_law| is {own:.3g} to its own law but {others[s2]:.3g} to the law of slot (q={s2[0]}, m={s2[1]})")
         # (2) one interpolant: integral identities on the returned arrays
@@ -346,10 +350,10 @@ def run_case(case):
 
 # =========================================================================== exploration
 
-def plot_cases():
+def plot_cases(thorough=False):
     out = []
-    for shape in ([2, 6], [3, 3]):
-        for nv in (8, 6):
+    for shape in ([2, 6], [3, 3]) + (([1, 6],) if thorough else ()):
+        for nv in (8, 6) + ((12,) if thorough else ()):
             for vkind in ("extended", "inside"):
                 for n in (0, 1, 2):
                     for iq in range(shape[0]):
@@ -372,13 +376,17 @@ def explore(ctx):
         "matplotlib is imported by cij.plot.modes but nothing is drawn: a recording axes object receives the calls",
     ]
     dims = OrderedDict((k, list(v)) for k, v in DIMS.items())
+    if not ctx.quick:
+        dims["nv"] = dims["nv"] + [5, 9, 10]
+        dims["shape"] = dims["shape"] + [[1, 6]]
     cases, results = ctx.run_lattice(MOD, "run_case", dims, None, part="interp-full-product",
                                      extra={"part": "interp"}, canon=canon)
-    pc = plot_cases()
+    pc = plot_cases(thorough=not ctx.quick)
     ctx.run(MOD, "run_case", pc, part="plot")
 
     worst_exact = {"w": 0.0, "g": 0.0, "h": 0.0}
     worst_id = {"r1": 0.0, "r2": 0.0}
+    worst_mix = 0.0
     per_method = {}
     for c, r in zip(cases, results):
         wst = r.get("worst")
@@ -391,16 +399,19 @@ def explore(ctx):
         if r.get("exact") and not any("-inexact" in v_["sig"] or "mixing" in v_["sig"] for v_ in r.get("viol", [])):
             for k in worst_exact:
                 worst_exact[k] = max(worst_exact[k], wst[k])
+        if not r.get("viol"):
+            worst_mix = max(worst_mix, wst.get("mix", 0.0))
         if not any("inconsistent" in v_["sig"] for v_ in r.get("viol", [])):
             for k in worst_id:
                 worst_id[k] = max(worst_id[k], wst[k])
-    ctx.notes["alphabets"] = {"method_order": len(MO), "n_V": [8, 6, 7, 12], "data": DATA, "vkind": ["extended", "inside"],
-                              "shape": [[2, 6], [3, 3]], "plot_n": [0, 1, 2], "grid_points": R.N_GRID,
-                              "admissible_method_order_nV": sum(1 for m, o in MO for nv in (6, 7, 8, 12) if o < nv)}
+    ctx.notes["alphabets"] = {"method_order": len(MO), "n_V": dims["nv"], "data": DATA, "vkind": ["extended", "inside"],
+                              "shape": dims["shape"], "plot_n": [0, 1, 2], "grid_points": R.N_GRID,
+                              "admissible_method_order_nV": sum(1 for m, o in MO for nv in dims["nv"] if o < nv)}
     ctx.notes["per_method"] = per_method
     ctx.notes["tolerances"] = {"omega_rel": RTOL_W, "gamma_abs": ATOL_G, "identity_scaled": TOL_ID}
     ctx.notes["largest_error_among_passing_exact_cases"] = worst_exact
     ctx.notes["largest_identity_residual_among_passing_cases"] = worst_id
+    ctx.notes["largest_own_over_nearest_other_law_distance_generic_data"] = worst_mix     # nearest-law rule: must stay below 1
     ctx.notes["plot_cases"] = len(pc)
 
 
